@@ -14,15 +14,16 @@ export GOFLAGS=-mod=mod GOPROXY=off GOSUMDB=off GOTOOLCHAIN=local GOWORK=off
 tmp=$(mktemp -d "${TMPDIR:-/tmp}/sfselftest.XXXXXX")
 trap 'rm -rf "$tmp"' EXIT
 fail=0; ran=0
-for patch in "$here"/mutants/*.patch; do
-  [ -e "$patch" ] || continue
+# (mutants run in parallel, one scratch copy per mutant)
+mutant_one() {
+  patch=$1; want=$2; tmp=$3
   exp="${patch%.patch}.expect"
-  [ -e "$exp" ] || { echo "SELFTEST missing .expect for $patch"; fail=1; continue; }
-  if [ -n "$want" ] && ! grep -q "^$want[ @]" "$exp"; then continue; fi
-  rm -rf "$tmp/repo"; mkdir -p "$tmp/repo"
-  rsync -a --exclude .git /repo/ "$tmp/repo/"
-  if ! (cd "$tmp/repo" && patch -p1 -s --no-backup-if-mismatch < "$patch" >/dev/null 2>&1); then
-    echo "SELFTEST FAIL $(basename "$patch"): patch does not apply to the current tree"; fail=1; continue
+  [ -e "$exp" ] || { echo "SELFTEST FAIL missing .expect for $patch"; exit 0; }
+  if [ -n "$want" ] && ! grep -q "^$want[ @]" "$exp"; then exit 0; fi
+  w="$tmp/m.$(basename "$patch")"; mkdir -p "$w/repo"
+  rsync -a --exclude .git /repo/ "$w/repo/"
+  if ! (cd "$w/repo" && patch -p1 -s --no-backup-if-mismatch < "$patch" >/dev/null 2>&1); then
+    echo "SELFTEST FAIL $(basename "$patch"): patch does not apply to the current tree"; rm -rf "$w"; exit 0
   fi
   while read -r prop needle; do
     [ -z "$prop" ] && continue
@@ -30,15 +31,21 @@ for patch in "$here"/mutants/*.patch; do
     tier=quick
     case "$prop" in *@thorough) tier=thorough; prop=${prop%@thorough};; esac
     if [ -n "$want" ] && [ "$prop" != "$want" ]; then continue; fi
-    out=$(/verif/bin/sfcheck -property "$prop" -tier "$tier" -repo "$tmp/repo" -no-evidence 2>&1); rc=$?
-    ran=$((ran+1))
+    out=$(/verif/bin/sfcheck -property "$prop" -tier "$tier" -repo "$w/repo" -no-evidence 2>&1); rc=$?
+    echo "MUTANT-RAN"
     if [ $rc -ne 1 ] || ! printf '%s' "$out" | grep -qF -- "$needle"; then
-      echo "SELFTEST FAIL $(basename "$patch") property=$prop: expected exit 1 naming '$needle' (exit $rc)"; fail=1
+      echo "SELFTEST FAIL $(basename "$patch") property=$prop: expected exit 1 naming '$needle' (exit $rc)"
     else
       echo "selftest ok  $(basename "$patch") property=$prop fires on '$needle'"
     fi
   done < "$exp"
-done
+  rm -rf "$w"
+}
+export -f mutant_one
+mout=$(ls "$here"/mutants/*.patch 2>/dev/null | xargs -P "${SELFTEST_JOBS:-8}" -I{} bash -c 'mutant_one "$1" "$2" "$3"' _ {} "$want" "$tmp")
+ran=$(printf '%s\n' "$mout" | grep -c '^MUTANT-RAN$')
+printf '%s\n' "$mout" | grep -v '^MUTANT-RAN$' | grep . | sort || true
+if printf '%s\n' "$mout" | grep -q '^SELFTEST FAIL'; then fail=1; fi
 # Behaviour-preserving edits (renames, extracted helpers, changed loop forms ... written by independent
 # sub-agents, /verif/benign/<id>/patch.diff): the check must stay silent on every one of them.
 # (run in parallel, one scratch copy per edit)
